@@ -177,3 +177,25 @@ Theorem C03_update_jumps_is_the_iteration_of_that_step : forall {C} c offs (l : 
   update_jumps c l vals offs cur = SrcRelaxTie.run2 c offs l vals cur false.
 Proof. intros. apply SrcRelaxTie.update_jumps_is_the_iteration. Qed.
 Print Assumptions C03_update_jumps_is_the_iteration_of_that_step.
+
+(* and so is the header the encoder writes: how from_code_data assembles the flag set (function flags, kind flag,
+   VARARGS / VARKEYWORDS through args_to_input with the assertion that the variable table starts with the parameter names,
+   NOFREE when there are neither free nor cell variables, annotations, NESTED) and the three argument counts, re-translated
+   on every run (Gen/SrcHeader.v, EncodeHeader), is model_encode_header for all inputs - and encode_code is blocks_to_bytes,
+   that header, from_flags_data, from_line_mapping and the CodeType constructor (SrcHeaderTie.encode_code_header) *)
+From PCD Require Gen.SrcHeader Proofs.SrcHeaderTie.
+Theorem C03_encoder_header_is_the_source : forall ty varnames fe ce fa ne,
+  PCD.Gen.SrcHeader.EncodeHeader.header ty varnames fe ce fa ne
+  = SrcHeaderTie.model_encode_header ty varnames fe ce fa ne.
+Proof. exact SrcHeaderTie.encode_header_tie. Qed.
+Print Assumptions C03_encoder_header_is_the_source.
+
+(* the encoder's tables: FromArgs.__setitem__ (a second, different value at an occupied index raises) and FromArgs.add
+   (an override pins the index; a known value keeps its index; a new value is stored at len(table) THROUGH __setitem__, so a
+   pinned entry that owns that slot makes it raise), re-translated on every run, are the model's *)
+From PCD Require Model.TableOps Gen.SrcTables Proofs.SrcTablesTie.
+Theorem C03_encoder_tables_are_the_source : forall {T} (keq : T -> T -> bool) (st : fromargs T) a,
+  (forall i, PCD.Gen.SrcTables.fa_setitem keq st i a = fa_setitem keq st i a) /\
+  (forall ov, PCD.Gen.SrcTables.fa_add keq st a ov = fa_add keq st a ov).
+Proof. intros. split; intros; [apply SrcTablesTie.fa_setitem_tie | apply SrcTablesTie.fa_add_tie]. Qed.
+Print Assumptions C03_encoder_tables_are_the_source.
